@@ -36,6 +36,45 @@ theorem AcctInv.cast {ps : PageSet Node} {w w' : Walker Node} {a a' : TW Node} (
   unfold AcctInv
   rw [e1, e3]; exact h
 
+/-- **every slot written is named**: a slot the tree walker has written (`a.wl`) is named by the diff of its page — on the
+stack, or handed out — unless its page was left without being handed out (an elided page that never had a bucket); and no
+page is handed out twice -/
+def NamedInv (w : Walker Node) (a : TW Node) : Prop :=
+  (w.outputPages.map PageOut.pageId).Nodup ∧
+  ∀ q ∈ a.wl, q ≠ [] →
+    (∃ sp ∈ w.stack, sp.pageId = specPage q ∧ sp.diff.changed (specIndex q) = true) ∨
+    (∃ o ∈ w.outputPages, o.pageId = specPage q ∧ o.diff.changed (specIndex q) = true) ∨
+    (specPage q ∈ a.log.map (·.1) ∧ ∀ o ∈ w.outputPages, o.pageId ≠ specPage q)
+
+theorem NamedInv.cast {w w' : Walker Node} {a a' : TW Node} (h : NamedInv w a)
+    (e1 : w'.stack = w.stack) (e2 : w'.outputPages = w.outputPages) (e3 : a'.wl = a.wl) (e4 : a'.log = a.log) :
+    NamedInv w' a' := by
+  unfold NamedInv
+  rw [e1, e2, e3, e4]; exact h
+
+/-- more pages on the stack -/
+theorem NamedInv.push {w w' : Walker Node} {a a' : TW Node} (h : NamedInv w a)
+    (e1 : ∀ sp ∈ w.stack, sp ∈ w'.stack) (e2 : w'.outputPages = w.outputPages) (e3 : a'.wl = a.wl) (e4 : a'.log = a.log) :
+    NamedInv w' a' := by
+  unfold NamedInv
+  rw [e2, e3, e4]
+  refine ⟨h.1, ?_⟩
+  intro q hq hne
+  rcases h.2 q hq hne with ⟨sp, hsp, h1, h2⟩ | h'
+  · exact Or.inl ⟨sp, e1 sp hsp, h1, h2⟩
+  · exact Or.inr h'
+
+/-- writing the root node (no page) -/
+theorem NamedInv.write_root {w : Walker Node} {a : TW Node} (h : NamedInv w a) (hp : a.pos = []) (n : Node) :
+    NamedInv w (a.setNode n) := by
+  refine ⟨h.1, ?_⟩
+  intro q hq hne
+  have hq' : q ∈ a.wl ++ [a.pos] := hq
+  rcases List.mem_append.mp hq' with h1 | h1
+  · exact h.2 q h1 hne
+  · rw [List.mem_singleton, hp] at h1
+    exact absurd h1 hne
+
 structure Sim (ps : PageSet Node) (w : Walker Node) (a : TW Node) : Prop where
   wf : w.position.WF
   pos : w.position.path = a.pos
@@ -51,6 +90,7 @@ structure Sim (ps : PageSet Node) (w : Walker Node) (a : TW Node) : Prop where
   nofix : w.preFix = false
   diffs : ∀ sp ∈ w.stack, DiffOK H ps sp
   acct : AcctInv ps w a
+  named : NamedInv w a
 
 /-- the output pages of a walker that is not a reconstructor are `UpdatedPage`s (the form the update-mode theorems use) -/
 theorem outMatches_updated {ps : PageSet Node} {w : Walker Node} {a : TW Node} (h : Sim H ps w a)
@@ -77,7 +117,9 @@ theorem sim_update_top {w : Walker Node} {a : TW Node} (h : Sim H ps w a) (top :
     (hctr : top'.prevChildrenLeaves = top.prevChildrenLeaves ∧ top'.pageLeaves = top.pageLeaves ∧
       top'.childrenLeaves = top.childrenLeaves)
     (hm : PageMatches H top' st') (hrest : ∀ sp ∈ rest, PageMatches H sp st') (hroot : st' [] = a.store [])
-    (wl' : List Path) :
+    (wl' : List Path)
+    (hdm : ∀ i, i < 126 → top.diff.changed i = true → top'.diff.changed i = true)
+    (hwl : ∀ q ∈ wl', q ≠ [] → q ∈ a.wl ∨ (specPage q = top'.pageId ∧ top'.diff.changed (specIndex q) = true)) :
     Sim H ps { w with stack := top' :: rest } { a with store := st', wl := wl' } := by
   have hrecon : ReconInv H ({ w with stack := top' :: rest } : Walker Node)
       ({ a with store := st', wl := wl' } : TW Node) := by
@@ -96,7 +138,21 @@ theorem sim_update_top {w : Walker Node} {a : TW Node} (h : Sim H ps w a) (top :
       simp only [List.map_cons, List.sum_cons] at this ⊢
       have e : clOf top' = clOf top := by unfold clOf; rw [hctr.2.2]
       rw [e]; exact this
-  refine ⟨h.wf, h.pos, ?_, ?_, ?_, ?_, ?_, ?_, hrecon, h.cpr, h.outs, h.nofix, ?_, ?_⟩
+  refine ⟨h.wf, h.pos, ?_, ?_, ?_, ?_, ?_, ?_, hrecon, h.cpr, h.outs, h.nofix, ?_, ?_, ?_⟩
+  rotate_right
+  · refine ⟨h.named.1, ?_⟩
+    intro q hq hne
+    have hq' : q ∈ wl' := hq
+    rcases hwl q hq' hne with hold | ⟨h1, h2⟩
+    · rcases h.named.2 q hold hne with ⟨sp, hsp, h1, h2⟩ | h'
+      · rw [hst] at hsp
+        rcases List.mem_cons.mp hsp with e | hsp'
+        · left
+          refine ⟨top', List.mem_cons_self .., by rw [hid, ← e]; exact h1, ?_⟩
+          exact hdm _ (specIndex_lt q hne) (by rw [← e]; exact h2)
+        · exact Or.inl ⟨sp, List.mem_cons_of_mem _ hsp', h1, h2⟩
+      · exact Or.inr h'
+    · exact Or.inl ⟨top', List.mem_cons_self .., h1.symm, h2⟩
   rotate_right
   · intro sp hsp
     rcases List.mem_cons.mp hsp with e | hsp'
@@ -237,6 +293,14 @@ theorem sim_write_top {w : Walker Node} {a : TW Node} (h : Sim H ps w a) (top : 
     rw [upd_other _ _ _ _ this]
     exact hm2 q hq hql hqp
   · rw [upd_other _ _ _ _ (Ne.symm hr)]
+  · intro i hi hch
+    exact hd' i hi (Or.inl hch)
+  · intro q hq hne
+    rcases List.mem_append.mp hq with h1 | h1
+    · exact Or.inl h1
+    · rw [List.mem_singleton] at h1
+      subst h1
+      exact Or.inr ⟨hrp, hd' _ (specIndex_lt q hne) (Or.inr rfl)⟩
 
 /-- `set_node` -/
 theorem sim_setNode {w : Walker Node} {a : TW Node} (h : Sim H ps w a) (hd : 6 * k0 w.parentPage < a.pos.length)
